@@ -256,7 +256,7 @@ def run_ties(res, rng, quick):
     from props import c02
     header = c02.HEADER.replace('C02.Exec.', 'C02.Text C02.Exec.') \
         + 'From Coq Require Import String.\n'
-    n_text = 300 if quick else 5000
+    n_text = 300 if quick else 3500
 
     # ---- content() ----
     cases = []
@@ -418,7 +418,7 @@ def run_link_tie(res, rng, quick):
     from props import c02
     header = c02.HEADER.replace('C02.Exec.', 'C02.Text C02.LinkC04 C02.Exec.')
     cases, meta = [], []
-    for _ in range(150 if quick else 2500):
+    for _ in range(150 if quick else 1500):
         tag = rng.choice(LINK_TAGS)
         mn, prm = c02.gen_card(rng, tag)
         if rng.random() < 0.08:
